@@ -297,6 +297,8 @@ def _call_builtin(I, st, f, name, args, kw, frame, node, where):
         else:
             n = I.symbol('len(%s)' % _k(v), NONNEG, kind='len')
             return [(st, Num(n.p, True))]
+        if any(type(x).__name__ == 'Opt' or (isinstance(x, tuple) and x and x[0] == 'opt') for x in elems):
+            raise Unsupported('len() of a collection with optional elements (words of a command) in %s' % frame.qual())
         fixed = sum(1 for x in elems if not isinstance(x, Star))
         stars = [x for x in elems if isinstance(x, Star)]
         p = Num.const(fixed).p
